@@ -22,7 +22,7 @@ PROPS['C02'] = dict(
         dict(name='play', variant='asan', harness='c02_banks.cpp', quick=3000, thorough=30000),
         dict(name='fuzz-nd', variant='asan-nd', harness='c02_banks.cpp', quick=0, thorough=40000),
         dict(name='play-nd', variant='asan-nd', harness='c02_banks.cpp', quick=0, thorough=10000),
-        dict(name='memcheck', variant='plain-d', harness='c02_banks.cpp', quick=800, thorough=12000, budget=1200, wall=3000,
+        dict(name='memcheck', variant='plain-d', harness='c02_banks.cpp', quick=800, thorough=12000, budget=150, wall=2400,
              wrapper=['valgrind', '-q', '--error-exitcode=79', '--exit-on-first-error=yes', '--track-origins=no', '--leak-check=no']),
     ],
 )
